@@ -831,3 +831,21 @@ func maskOf(s Sort) uint64 {
 }
 
 var _ = bits.Len
+
+// dumpTerm prints a term as an S-expression down to the given depth (debugging).
+func dumpTerm(t *Term, depth int) string {
+	if t.op == "const" || t.op == "var" {
+		return t.ref()
+	}
+	if depth == 0 {
+		return t.ref()
+	}
+	s := "(" + t.op
+	if t.op == "extract" {
+		s += fmt.Sprintf("[%d:%d]", t.p1, t.p2)
+	}
+	for _, a := range t.args {
+		s += " " + dumpTerm(a, depth-1)
+	}
+	return s + ")"
+}
